@@ -323,10 +323,12 @@ func (a *Adv) build(soup []Sent, t *LState) []int {
 		if a.on("NC") {
 			for _, b := range signers {
 				share := kit.Share(b, H, randomseed.RandomSeedToBytes(randomseed.CalculateRandomSeed(nil)))
-				if r.Leader(v) != string(b) && v >= t.View {
-					addRaw(mkBlockRefMsgPad(ref.KP, brefT{T: protocol.LEAN_HELIX_PREPARE, I: kit.Instance, H: H, V: primitives.View(v), Hash: hash}, signerT{ID: b, Mode: "valid"}, nil, nil, ncPad), "NC")
+				for _, pad := range [][]byte{ncPad, ncAlign} {
+					if r.Leader(v) != string(b) && v >= t.View {
+						addRaw(mkBlockRefMsgPad(ref.KP, brefT{T: protocol.LEAN_HELIX_PREPARE, I: kit.Instance, H: H, V: primitives.View(v), Hash: hash}, signerT{ID: b, Mode: "valid"}, nil, nil, pad), "NC")
+					}
+					addRaw(mkBlockRefMsgPad(ref.KC, brefT{T: protocol.LEAN_HELIX_COMMIT, I: kit.Instance, H: H, V: primitives.View(v), Hash: hash}, signerT{ID: b, Mode: "valid"}, share, nil, pad), "NC")
 				}
-				addRaw(mkBlockRefMsgPad(ref.KC, brefT{T: protocol.LEAN_HELIX_COMMIT, I: kit.Instance, H: H, V: primitives.View(v), Hash: hash}, signerT{ID: b, Mode: "valid"}, share, nil, ncPad), "NC")
 			}
 		}
 		if a.on("OUT") && a.out != nil {
@@ -396,11 +398,13 @@ func (a *Adv) build(soup []Sent, t *LState) []int {
 				for _, tag := range e.Cfg.Alphabet {
 					blk := a.blockFor(h, tag)
 					addRaw(mkBlockRefMsgPad(ref.KPP, brefT{T: protocol.LEAN_HELIX_PREPREPARE, I: kit.Instance, H: H, V: 0, Hash: kit.HashOf(blk)}, signerT{ID: b, Mode: "valid"}, nil, blk, ncPad), "NC")
+					addRaw(mkBlockRefMsgPad(ref.KPP, brefT{T: protocol.LEAN_HELIX_PREPREPARE, I: kit.Instance, H: H, V: 0, Hash: kit.HashOf(blk)}, signerT{ID: b, Mode: "valid"}, nil, blk, ncAlign), "NC")
 				}
 			}
 			for v := uint64(1); v <= e.Cfg.MaxView; v++ {
 				if r.Leader(v) == me && (e.Cfg.Eager || v >= t.View) {
 					addRaw(mkVC(voteT{T: protocol.LEAN_HELIX_VIEW_CHANGE, I: kit.Instance, H: H, V: primitives.View(v), S: signerT{ID: b, Mode: "valid"}, Pad: ncPad}, nil), "NC")
+					addRaw(mkVC(voteT{T: protocol.LEAN_HELIX_VIEW_CHANGE, I: kit.Instance, H: H, V: primitives.View(v), S: signerT{ID: b, Mode: "valid"}, Pad: ncAlign}, nil), "NC")
 				}
 			}
 		}
